@@ -220,6 +220,8 @@ type Hist struct {
 	attrSpelling string
 	// fixedTracking: never change what is tracked
 	fixedTracking bool
+	// tagLikeBranch: tags may take the name of an existing branch
+	tagLikeBranch bool
 }
 
 var histPaths = []string{"a.bin", "b.bin", "dir/c.bin", "dir/sub/d.bin", "e.dat", "notes.txt", "dir/readme.txt"}
@@ -412,6 +414,9 @@ func (h *Hist) Step() {
 		}
 	case 10: // tag
 		name := fmt.Sprintf("t%d", len(h.Tags))
+		if h.tagLikeBranch && len(h.Branches) > 1 && t.Bool(1, 2, "tag-named-like-branch") {
+			name = h.Branches[1+t.Choose(len(h.Branches)-1, "which-branch-name")]
+		}
 		if t.Choose(2, "annotated") == 1 {
 			w.GitEnv(h.Dir, h.dateEnv(), "tag", "-a", "-m", "tag "+name, name)
 		} else {
